@@ -1050,6 +1050,31 @@ func (m *Machine) binop(op token.Token, x, y Value, t types.Type, in ssa.Instruc
 				return mkCmp(">=", x, y)
 			}
 		}
+		if isBasic && b.Info()&types.IsFloat != 0 {
+			// JSON numbers that carry a symbolic integer
+			fx, fok := x.(float64)
+			fy, fok2 := y.(float64)
+			if fok && fx == math.Trunc(fx) {
+				x = int64(fx)
+			} else if fok {
+				m.fail("unsupported", "symbolic number compared with a non-integral float")
+			}
+			if fok2 && fy == math.Trunc(fy) {
+				y = int64(fy)
+			} else if fok2 {
+				m.fail("unsupported", "symbolic number compared with a non-integral float")
+			}
+			switch op {
+			case token.EQL:
+				return mkCmp("=", x, y)
+			case token.NEQ:
+				return mkNot(mkCmp("=", x, y))
+			case token.LSS:
+				return mkCmp("<", x, y)
+			case token.GTR:
+				return mkCmp(">", x, y)
+			}
+		}
 		if isBasic && b.Info()&types.IsString == 0 {
 			m.fail("unsupported", "symbolic binop "+op.String()+" on "+t.String()+" at "+m.pos(in))
 		}
@@ -1064,6 +1089,15 @@ func (m *Machine) binop(op token.Token, x, y Value, t types.Type, in ssa.Instruc
 	}
 	switch x := x.(type) {
 	case int64:
+		if _, isLeaf := y.(*JSONLeaf); isLeaf {
+			// a byte compared with a symbolic JSON leaf: leaves contain no structural characters (token assumption)
+			switch op {
+			case token.EQL:
+				return false
+			case token.NEQ:
+				return true
+			}
+		}
 		y, ok := y.(int64)
 		if !ok {
 			m.fail("unsupported", fmt.Sprintf("binop %s int with %T", op, y))
@@ -1200,6 +1234,13 @@ func (m *Machine) binop(op token.Token, x, y Value, t types.Type, in ssa.Instruc
 			return x > y
 		case token.GEQ:
 			return x >= y
+		}
+	case *JSONLeaf:
+		switch op {
+		case token.EQL:
+			return false
+		case token.NEQ:
+			return true
 		}
 	case Iface, Ptr, *Chan, Struct, Array, *Opaque:
 		switch op {
